@@ -378,3 +378,9 @@ fn load_plugins(config: &Config, state: Arc<AppState>) -> Result<usize, ()> {
 
     Ok(manager.plugin_count())
 }
+
+#[cfg(kani)]
+#[allow(unused_imports, dead_code)]
+mod verif_harness {
+    include!(concat!(env!("HUMPHREY_VERIF"), "/kani/in_server.rs"));
+}
